@@ -59,6 +59,10 @@ impl BucketIndex {
     pub fn verif_index(&self) -> u64 {
         self.0
     }
+
+    pub fn verif_new(index: u64) -> Self {
+        BucketIndex(index)
+    }
 }
 
 /// Essentially an `Arc<Option<BucketIndex>>` that can be mutated atomically.
